@@ -389,6 +389,10 @@ func c13Run(raw json.RawMessage, c *mc.Ctx) {
 			p.Meas.Date = at(1 + sp.Var)
 			p.Config["Dateformat"] = f
 			p.Config["DivideCentury"] = "50"
+			if sp.Var%3 == 1 {
+				// the project starts on 31.12.1999: the century split sits exactly on its first year (99 -> 1999, 00 -> 2000)
+				p.Config["DivideCentury"] = "99"
+			}
 			p.Config["EndDate"] = proj.DateStr(f, st.AddDate(0, 0, 299))
 			ann := st.AddDate(0, 0, 299).AddDate(0, 0, -40) // inside the end year, before the end date
 			p.Config["AnnualOutputDate"] = map[bool]string{true: ann.Format("0201"), false: ann.Format("0102")}[strings.HasPrefix(f, "DateDE")]
